@@ -1,6 +1,7 @@
 (* Props/C06.v — deme lifecycle: one metaepoch per step while active and awake; stopping is final. *)
 From Coq Require Import List Bool Arith.
 From HV Require Import Ord Sprout Tree TreeLemmas TreeInv TreeRun.
+From HV Require Import DriverPrim Driver DriverFacts GenDriver GenEquivDriver DriverCode.
 Import ListNotations.
 
 (* between metaepochs (and whenever no deme is mid-metaepoch): every deme has advanced by exactly one metaepoch if it was
@@ -50,3 +51,14 @@ Proof. repeat split. Qed.
 
 Example C06_example : exists s, ex_final = Some s /\ map d_active (demes s) = [true; false; false] /\ map d_meta (demes s) = [2; 1; 2].
 Proof. vm_compute. eexists. split; [reflexivity|]. split; reflexivity. Qed.
+
+(* ---------------------------------------------------------------- the same for the TRANSLATED code.
+   Gen/GenDriver.v is regenerated from /repo's current pyhms/tree.py (run, run_step, run_metaepoch, run_sprout, _do_sprout, active_demes,
+   active_non_leaves) and the run_metaepoch methods of EADeme, DEDeme, SHADEDeme, CMADeme, LocalDeme, LHSDeme, SobolDeme on every check;
+   `code_moment c fuel n evs s`: s is a state the translated run() passes through on the event stream evs. *)
+Theorem C06_translated_code_stepped_once c fuel n evs s : 1 <= height c -> code_moment c fuel n evs s -> ONCE c s.
+Proof. exact (code_moment_once c fuel n evs s). Qed.
+Print Assumptions C06_translated_code_stepped_once.
+Theorem C06_translated_code_moments_are_reachable c fuel n evs s : code_moment c fuel n evs s -> reach c n s.
+Proof. exact (code_moment_reach c fuel n evs s). Qed.
+Print Assumptions C06_translated_code_moments_are_reachable.
